@@ -80,7 +80,7 @@ def _run_scenario(case):
                 barrier.wait(K.HANG)
             except threading.BrokenBarrierError:
                 pass
-            replies[i] = K.http_exchange(fam, addr, mats[i]["raw"])
+            replies[i] = K.http_exchange(fam, addr, mats[i]["raw"], half_close=mats[i].get("half_close", False))
             if mats[i]["k"] != "slow":
                 with cnt_lock:
                     fast_left[0] -= 1
@@ -109,7 +109,7 @@ def _run_scenario(case):
         reg.open_all()
         # service continues: sequential requests after the concurrent phase
         fmats = [K.materialize(d) for d in followups]
-        freplies = [K.http_exchange(fam, addr, m["raw"]) for m in fmats]
+        freplies = [K.http_exchange(fam, addr, m["raw"], half_close=m.get("half_close", False)) for m in fmats]
         # the stop sequence of the property
         r1, x1 = K.watchdog_call(server.shutdown)
         out["stop"]["shutdown_returned"] = r1
